@@ -173,4 +173,230 @@ Proof.
     pose proof (lb_sorted_in _ _ _ S2 Hx). lia.
 Qed.
 
+
+Lemma rest_sorted c : CInv c -> CRest c -> lb_sorted (c_exp c) (c_buf c).
+Proof.
+  intros I R. destruct I. unfold CRest in R. destruct (c_buf c) as [|hd tl]; [exact I|].
+  cbn in *. destruct ci_sorted0 as [S1 S2]. split; [|assumption].
+  specialize (R hd (or_introl eq_refl)). lia.
+Qed.
+
+Lemma saw_inv c b : CInv c -> CInv (c_set_saw c b).
+Proof. intros []. constructor; cfin. Qed.
+Lemma saw_j log c b : CJ log c -> CJ log (c_set_saw c b).
+Proof. intros []. constructor; cfin. Qed.
+
+Lemma CPost_saw log c c' o b : CPost log c c' o -> CPost log c (c_set_saw c' b) o.
+Proof.
+  intros [P1 P2 P3 P4 P5 P6 P7 P8]. constructor; cfin; [apply saw_inv; assumption|apply saw_j; assumption].
+Qed.
+
+Lemma CPost_saw_l log c c' o b : CInv c -> CPost log (c_set_saw c b) c' o -> CPost log c c' o.
+Proof. intros I [P1 P2 P3 P4 P5 P6 P7 P8]. constructor; cfin. Qed.
+
+(* sendGapRequest under the clock oracle *)
+Lemma c_gap_request_post log c g c' o :
+  CInv c -> CJ log c -> c_gap_request c g = (c', o) ->
+  CPost log c c' o /\ outs_toCons o = [] /\ c_infl c' = c_infl c /\ c_conf c' = c_conf c /\ c_buf c' = c_buf c /\
+  c_exp c' = c_exp c /\ c_sess c' = c_sess c.
+Proof.
+  intros I J H. unfold c_gap_request in H. destruct g; [eapply c_send_request_post; eassumption|].
+  inv_pair H. splits; auto. apply CPost_refl; assumption.
+Qed.
+
+(* bufferMessage *)
+Lemma c_buffer_post log c g e c' o :
+  CInv c -> CRest c -> CJ log c -> c_sess c = sess -> c_exp c < snd e <= c_upto c -> logat log (snd e) (fst e) ->
+  c_buffer c g e = (c', o) ->
+  CPost log c c' o /\ CRest c' /\ outs_toCons o = [] /\ c_infl c' = c_infl c /\ c_sess c' = c_sess c.
+Proof.
+  intros I R J Hs He Hl H. unfold c_buffer in H.
+  set (b := if buf_mem (snd e) (c_buf c) then _ else _) in H.
+  set (s1 := c_upd c _ _ _ _ _ _ b _ _ _) in H.
+  pose proof I as I0. destruct I as [I1 I2 I3 I4 I5 I6 I7 I8 I9 I10 I11]. pose proof J as J0. destruct J as [J1 J2 J3].
+  assert (Hb : lb_sorted (c_exp c - 1) b /\ (forall x, In x b -> x = e \/ In x (c_buf c))).
+  { subst b. destruct (buf_mem (snd e) (c_buf c)) eqn:Hm; [split; auto|].
+    destruct (Z.of_nat (length (c_buf c)) >=? c_window c); [split; auto|].
+    split; [apply buf_insert_sorted; auto; lia|apply buf_insert_in]. }
+  destruct Hb as [Hb1 Hb2].
+  assert (I' : CInv s1).
+  { constructor; cfin.
+    intros x Hx. destruct (Hb2 x Hx) as [->|Hx']; [lia|auto]. }
+  assert (J' : CJ log s1).
+  { constructor; cfin. intros x Hx. destruct (Hb2 x Hx) as [->|Hx']; auto. }
+  assert (R' : CRest s1).
+  { intros x Hx. cbn in *. destruct (Hb2 x Hx) as [->|Hx']; [lia|auto]. }
+  assert (P1 : CPost log c s1 []).
+  { constructor; cfin; try constructor. intros h Hh. rewrite app_nil_r. exact Hh. }
+  destruct (c_gap_open s1).
+  - destruct (c_gap_request_post log s1 g c' o I' J' H) as (P2 & O2 & F2 & C2 & B2 & E2 & S2).
+    splits; auto.
+    + change o with ([] ++ o). eapply CPost_trans; [exact P1|exact P2|left; reflexivity].
+    + intros x Hx. rewrite B2 in Hx. rewrite E2. apply R'. exact Hx.
+  - inv_pair H. splits; auto.
+Qed.
+
+(* batchConfirmation *)
+Lemma c_batch_post log c c' o :
+  CInv c -> CJ log c -> c_batch c = (c', o) ->
+  CPost log c c' o /\ outs_toCons o = [] /\ c_infl c' = c_infl c /\ c_conf c' = c_conf c /\ c_buf c' = c_buf c /\
+  c_exp c' = c_exp c /\ c_sess c' = c_sess c.
+Proof.
+  intros I J H. unfold c_batch in H.
+  destruct (c_upto c - c_conf c <=? c_window c / 2); [eapply c_send_request_post; eassumption|].
+  destruct ((match c_buf c with [] => true | _ => false end) && (match c_infl c with None => true | Some _ => false end)); inv_pair H.
+  - destruct (c_send_ack_ok c I) as [A1 A2]. splits; auto. apply CPost_same; assumption.
+  - splits; auto. apply CPost_refl; assumption.
+Qed.
+
+(* handleRegistrationAck *)
+Lemma c_regack_post log c se n no c' o :
+  CInv c -> CRest c -> CJ log c -> okP log (c_sess c = 0) (RegAck se n no) ->
+  c_regack c se n no = (c', o) -> CPost log c c' o /\ CRest c'.
+Proof.
+  intros I R J Hin H. unfold c_regack in H. destruct Hin as (Hse & Hn & Hun).
+  destruct (negb (c_res c)); [inv_pair H; split; [apply CPost_refl|]; assumption|].
+  destruct (negb (no =? c_nonce c)); [inv_pair H; split; [apply CPost_refl|]; assumption|].
+  set (s1 := c_set_saw c true) in H.
+  set (s2 := if negb (se =? c_sess s1) then _ else s1) in H.
+  pose proof I as I0. destruct I as [I1 I2 I3 I4 I5 I6 I7 I8 I9 I10 I11]. pose proof J as J0. destruct J as [J1 J2 J3].
+  assert (Q : CInv s2 /\ CJ log s2 /\ CRest s2 /\ CPost log c s2 []).
+  { subst s2. destruct (Z.eqb_spec se (c_sess s1)) as [Heq|Hne]; cbn [negb].
+    - splits; [apply saw_inv|apply saw_j|exact R|apply CPost_saw; apply CPost_refl]; assumption.
+    - cbn in Hne. assert (Hz : c_sess c = 0) by (destruct I9; congruence).
+      destruct (I10 Hz) as (U1 & U2 & U3 & U4). specialize (Hun Hz). subst n.
+      splits.
+      + constructor; cfin; try (right; assumption).
+      + constructor; cfin.
+      + intros x Hx. cbn in Hx. contradiction.
+      + constructor; cfin.
+        * constructor; cfin; try (right; assumption).
+        * constructor; cfin.
+        * unfold K. cbn. rewrite U4, U2. intros h Hh. rewrite app_nil_r. exact Hh. }
+  destruct Q as (I2' & J2' & R2' & P2').
+  destruct (c_send_request_post log s2 true c' o I2' J2' H) as (P3 & O3 & F3 & C3 & B3 & E3 & S3).
+  split.
+  - change o with ([] ++ o). eapply CPost_trans; [exact P2'|exact P3|left; reflexivity].
+  - intros x Hx. rewrite B3 in Hx. rewrite E3. apply R2'. exact Hx.
+Qed.
+
+(* handleSequencedMessage *)
+Lemma c_seqmsg_post log c g se mid q c' o :
+  CInv c -> CRest c -> CJ log c -> okP log (c_sess c = 0) (SeqMsg se mid q) ->
+  c_seqmsg c g se mid q = (c', o) -> CPost log c c' o /\ CRest c'.
+Proof.
+  intros I R J Hin H. unfold c_seqmsg in H. destruct Hin as (Hse & Hl).
+  destruct (negb (c_res c)); [inv_pair H; split; [apply CPost_refl|]; assumption|].
+  destruct ((c_sess c =? 0) || negb (se =? c_sess c)) eqn:Hsess; [inv_pair H; split; [apply CPost_refl|]; assumption|].
+  assert (Hs : c_sess c = sess) by lia.
+  set (s1 := c_set_saw c true) in H.
+  assert (I1 : CInv s1) by (apply saw_inv; assumption).
+  assert (J1 : CJ log s1) by (apply saw_j; assumption).
+  assert (R1 : CRest s1) by exact R.
+  assert (P1 : CPost log c s1 []) by (apply CPost_saw; apply CPost_refl; assumption).
+  destruct ((q <? 1) || (q >? c_upto s1)) eqn:Hwin; [inv_pair H; split; assumption|].
+  destruct (q <? c_exp s1) eqn:Hlt.
+  { inv_pair H. split; [|assumption]. destruct (c_send_ack_ok s1 I1) as [A1 A2].
+    change (c_send_ack s1) with ([] ++ c_send_ack s1). eapply CPost_trans; [exact P1|apply CPost_same; eassumption|left; reflexivity]. }
+  destruct ((q =? c_exp s1) && (match c_infl s1 with None => true | Some _ => false end)) eqn:Hd.
+  { assert (Hn : c_infl s1 = None) by (destruct (c_infl s1); [lia|reflexivity]).
+    destruct (c_deliver_post log s1 (mid, q) c' o I1 J1 Hn ltac:(cbn [snd]; lia) Hl Hs (rest_sorted s1 I1 R1) H) as [P2 R2].
+    split; [|exact R2]. change o with ([] ++ o). eapply CPost_trans; [exact P1|exact P2|left; reflexivity]. }
+  destruct (match c_infl s1 with Some e => q =? snd e | None => false end) eqn:Hdup; [inv_pair H; split; assumption|].
+  destruct (c_buffer s1 g (mid, q)) as [s2 o2] eqn:Hb. destruct (c_drain s2) as [s3 o3] eqn:Hdr. inv_pair H.
+  assert (Hq : c_exp s1 < q).
+  { destruct (c_infl s1) as [e|] eqn:Hi; [|lia]. destruct I1 as [_ _ _ _ _ _ X _ _ _ _]. specialize (X e Hi). lia. }
+  destruct (c_buffer_post log s1 g (mid, q) s2 o2 I1 R1 J1 Hs ltac:(cbn [snd]; lia) Hl Hb) as (P2 & R2 & O2 & F2 & S2).
+  pose proof P2 as P2w. destruct P2 as [P2i P2j P2c P2u P2o P2s P2h P2f].
+  destruct (c_drain_post log s2 s3 o3 P2i P2j ltac:(intros _; rewrite S2; exact Hs) ltac:(intros _; exact R2) Hdr) as (P3 & R3 & O3).
+  split; [|exact R3].
+  change (o2 ++ o3) with ([] ++ (o2 ++ o3)). eapply CPost_trans; [exact P1| |left; reflexivity].
+  eapply CPost_trans; [exact P2w|exact P3|left; exact O2].
+Qed.
+
+(* handleConfirmed *)
+Lemma c_confirmed_post log c se mid q c' o :
+  CInv c -> CRest c -> CJ log c -> c_confirmed c se mid q = (c', o) -> CPost log c c' o /\ CRest c'.
+Proof.
+  intros I R J H. unfold c_confirmed in H.
+  destruct (c_infl c) as [e|] eqn:Hi; [|inv_pair H; split; [apply CPost_refl|]; assumption].
+  destruct (negb (se =? c_sess c) || negb (mid =? fst e) || negb (q =? snd e)); [inv_pair H; split; [apply CPost_refl|]; assumption|].
+  set (s1 := c_upd c _ _ _ (snd e + 1) (snd e) _ (drop_lt (snd e + 1) (c_buf c)) None _ _) in H.
+  pose proof I as I0. destruct I as [I1 I2 I3 I4 I5 I6 I7 I8 I9 I10 I11]. pose proof J as J0. destruct J as [J1 J2 J3].
+  pose proof (I7 e Hi) as He. pose proof (J2 e Hi) as Hle.
+  assert (Hs : c_sess c = sess).
+  { destruct I9 as [Hz|]; [|assumption]. destruct (I10 Hz) as (_ & _ & _ & Habs). congruence. }
+  assert (I' : CInv s1).
+  { constructor; cfin.
+    - pose proof (drop_lt_sorted (snd e + 1) (c_exp c - 1) (c_buf c) I5) as X.
+      eapply lb_sorted_weaken; [|exact X]. lia.
+    - intros x Hx. apply I6. eapply drop_lt_incl. exact Hx. }
+  assert (J' : CJ log s1).
+  { constructor; cfin.
+    - intros x Hx. apply J1. eapply drop_lt_incl. exact Hx.
+    - apply logat_le in Hle. lia. }
+  assert (P1 : CPost log c s1 []).
+  { constructor; cfin; try constructor.
+    unfold K. cbn. rewrite Hi. intros h Hh. rewrite app_nil_r. rewrite He. exact Hh. }
+  destruct (c_batch s1) as [s2 o2] eqn:Hb. destruct (c_drain s2) as [s3 o3] eqn:Hdr.
+  destruct (c_batch_post log s1 s2 o2 I' J' Hb) as (P2 & O2 & F2 & C2 & B2 & E2 & S2).
+  pose proof P2 as P2w. destruct P2 as [P2i P2j P2c P2u P2o P2s P2h P2f].
+  destruct (c_drain_post log s2 s3 o3 P2i P2j ltac:(intros _; rewrite S2; exact Hs) ltac:(intros X; rewrite F2 in X; cbn in X; congruence) Hdr) as (P3 & R3 & O3).
+  pose proof P3 as P3w. destruct P3 as [P3i P3j P3c P3u P3o P3s P3h P3f].
+  assert (P12 : CPost log c s3 (o2 ++ o3)).
+  { change (o2 ++ o3) with ([] ++ (o2 ++ o3)). eapply CPost_trans; [exact P1| |left; reflexivity].
+    eapply CPost_trans; [exact P2w|exact P3w|left; exact O2]. }
+  destruct (c_gap_open s3).
+  - destruct (c_send_request s3 true) as [s4 o4] eqn:Hr. inv_pair H.
+    destruct (c_send_request_post log s3 true s4 o4 P3i P3j Hr) as (P4 & O4 & F4 & C4 & B4 & E4 & S4).
+    split.
+    + rewrite app_assoc. eapply CPost_trans; [exact P12|exact P4|right; split; assumption].
+    + intros x Hx. rewrite B4 in Hx. rewrite E4. apply R3. exact Hx.
+  - inv_pair H. rewrite app_nil_r. split; assumption.
+Qed.
+
+(* handleTick *)
+Lemma c_tick_post log c g c' o :
+  CInv c -> CRest c -> CJ log c -> c_tick c g = (c', o) -> CPost log c c' o /\ CRest c'.
+Proof.
+  intros I R J H. unfold c_tick in H.
+  match type of H with (let '(s1, o1) := ?X in _) = _ => destruct X as [s1 o1] eqn:Hx end.
+  inv_pair H.
+  assert (Q : CPost log c s1 o1 /\ CRest s1).
+  { destruct ((c_sess c =? 0) || negb (c_saw c)).
+    - unfold c_register in Hx. inv_pair Hx.
+      pose proof I as I0. destruct I as [I1 I2 I3 I4 I5 I6 I7 I8 I9 I10 I11]. pose proof J as J0. destruct J as [J1 J2 J3].
+      split; [|exact R]. constructor; cfin.
+      + constructor; cfin.
+      + constructor; cfin.
+      + constructor; [exact Logic.I|constructor].
+      + intros h Hh. rewrite app_nil_r. exact Hh.
+    - destruct (c_infl c) as [e|] eqn:Hi.
+      + inv_pair Hx. split; [|exact R].
+        pose proof I as I0. destruct I as [I1 I2 I3 I4 I5 I6 I7 I8 I9 I10 I11]. pose proof J as J0. destruct J as [J1 J2 J3].
+        assert (Hs : c_sess c = sess).
+        { destruct I9 as [Hz|]; [|assumption]. destruct (I10 Hz) as (_ & _ & _ & Habs). congruence. }
+        constructor; cfin.
+        * unfold K. rewrite Hi. intros h Hh. rewrite <- (I7 e Hi). apply h_again; [rewrite (I7 e Hi); exact Hh|apply J2; exact Hi].
+        * constructor; [|constructor]. cbn. splits; auto. { rewrite Hi. destruct e; reflexivity. } rewrite (I7 e Hi). lia.
+      + destruct (c_gap_open c).
+        * destruct (c_gap_request_post log c g s1 o1 I J Hx) as (P2 & O2 & F2 & C2 & B2 & E2 & S2).
+          split; [exact P2|]. intros x Hxx. rewrite B2 in Hxx. rewrite E2. apply R. exact Hxx.
+        * inv_pair Hx. split; [apply CPost_refl; assumption|exact R]. }
+  destruct Q as [Q1 Q2]. split; [apply CPost_saw; exact Q1|exact Q2].
+Qed.
+
+Lemma cc_step_post log c i c' o :
+  CInv c -> CRest c -> CJ log c ->
+  match i with CFromPC true _ m => okP log (c_sess c = 0) m | _ => True end ->
+  cc_step c i = (c', o) -> CPost log c c' o /\ CRest c'.
+Proof.
+  intros I R J Hin H. unfold cc_step in H.
+  destruct (c_failed c); [inv_pair H; split; [apply CPost_refl|]; assumption|].
+  destruct i as [[|] g m|[|] se m q|[|] g]; try (inv_pair H; split; [apply CPost_refl|]; assumption).
+  - destruct m as [se n no|se m q]; [eapply c_regack_post|eapply c_seqmsg_post]; eassumption.
+  - eapply c_confirmed_post; eassumption.
+  - eapply c_tick_post; eassumption.
+Qed.
+
 End InvC.
